@@ -27,6 +27,33 @@ pub struct Flag {
     set: AtomicBool,
     op: Option<usize>,
     runq: RunQ,
+    /// number of the task's latest poll
+    gen: std::sync::atomic::AtomicU64,
+}
+
+/// The waker handed to ONE poll of a task. Only the waker of the task's most recent poll counts: a
+/// wake through a waker of an earlier poll is ignored, as the `Future` contract allows ("only the
+/// Waker from the most recent call should be scheduled to receive a wakeup") - code that keeps the
+/// waker of its first Pending and does not re-register on a later poll (a stream looked at once with
+/// `now_or_never`, then awaited; a future moved between tasks or polled by a combinator that hands
+/// out fresh wakers) loses its wakeup here and shows as a stall.
+struct PollWaker {
+    flag: Arc<Flag>,
+    gen: u64,
+}
+impl Wake for PollWaker {
+    fn wake(self: Arc<Self>) {
+        self.wake_by_ref();
+    }
+    fn wake_by_ref(self: &Arc<Self>) {
+        if self.flag.gen.load(Ordering::SeqCst) == self.gen || lax_wakers() {
+            self.flag.raise();
+        }
+    }
+}
+fn lax_wakers() -> bool {
+    static LAX: std::sync::OnceLock<bool> = std::sync::OnceLock::new();
+    *LAX.get_or_init(|| std::env::var("PV_LAX_WAKERS").is_ok())
 }
 impl Flag {
     fn raise(&self) {
@@ -137,6 +164,7 @@ impl Task {
                 set: AtomicBool::new(true),
                 op,
                 runq: runq.clone(),
+                gen: std::sync::atomic::AtomicU64::new(0),
             }),
             held: false,
             polls: 0,
@@ -470,7 +498,8 @@ impl World {
         let task = self.task_mut(t);
         task.flag.set.store(false, Ordering::SeqCst);
         task.polls += 1;
-        let waker = Waker::from(task.flag.clone());
+        let gen = task.flag.gen.fetch_add(1, Ordering::SeqCst) + 1;
+        let waker = Waker::from(Arc::new(PollWaker { flag: task.flag.clone(), gen }));
         let name = task.name.clone();
         let mut cx = Context::from_waker(&waker);
         pvcore::hang::enter(&name);
